@@ -34,6 +34,8 @@ def same(a, b):
     a, b = _num(a), _num(b)
     if isinstance(a, tuple) and isinstance(b, tuple) and len(a) == len(b) == 2 and a[0] == b[0] == 'Number' \
             and isinstance(a[1], (int, float)) and isinstance(b[1], (int, float)) and not isinstance(a[1], bool) and not isinstance(b[1], bool):
+        if a[1] == b[1] or (a[1] != a[1] and b[1] != b[1]):                  # also infinities and NaN
+            return True
         return abs(a[1] - b[1]) <= 1e-9 * max(1.0, abs(a[1]), abs(b[1]))
     return a == b and type(a) is type(b)
 
